@@ -315,6 +315,13 @@ pub fn r_int_map(n: usize) -> usize {
     m2.insert(n as u16, 1);
     m.get(&(n as u16)).map(|s| s.len()).unwrap_or(0) + m.len() * 10 + m2.len() * 100 + m2.get(&7).copied().unwrap_or(0) * 1000
 }
+pub fn r_opt_iter_bytes(s: &str) -> usize {
+    let o = s.chars().next();
+    let a = o.iter().count();
+    let b: usize = s.bytes().map(|b| b as usize).sum();
+    let c = s.chars().nth(1).map(|c| c as usize).unwrap_or(7);
+    a * 1000000 + b * 7 + c
+}
 pub fn r_clone_from(s: &str) -> String {
     let mut a = String::from("old");
     let b = s.to_string();
@@ -342,6 +349,7 @@ mod probe_native {
             let s: &str = s;
             println!("PROBE\tp_find_digit\t{}\t{:?}", i, p_find_digit(s));
             println!("PROBE\tr_clone_from\t{}\t{:?}", i, r_clone_from(s));
+            println!("PROBE\tr_opt_iter_bytes\t{}\t{:?}", i, r_opt_iter_bytes(s));
             println!("PROBE\tr_ends_with_slice\t{}\t{:?}", i, r_ends_with_slice(s));
             println!("PROBE\tr_default\t{}\t{:?}", i, r_default(s));
             println!("PROBE\tp_filter_map_sum\t{}\t{:?}", i, p_filter_map_sum(s));
